@@ -172,7 +172,6 @@ func top(r *vf.Run) {
 	// suspects: alone, 120 s (race build: 300 s), SIGQUIT dump
 	sort.Slice(suspects, func(i, j int) bool { return suspects[i].from < suspects[j].from })
 	r.Count("suspects", len(suspects))
-	hangBudget := time.Duration(envInt("C04_HANG_S", 120)) * time.Second
 	// Every hang costs its whole budget, so the number of re-runs is bounded: at most 3
 	// per suspect stage and maxRerun in total; the others stay undecided (inconclusive).
 	maxRerun := envInt("C04_MAX_RERUN", r.N(15, 40))
@@ -196,24 +195,26 @@ func top(r *vf.Run) {
 		go func() {
 			defer wg2.Done()
 			for s := range susWork {
-				budget := hangBudget
-				if s.race {
-					budget = hangBudget * 5 / 2
-				}
+				budget := 20 * time.Minute // only a watchdog: the solo child decides by CPU time / idleness
 				ex := r.RunChild(vf.ChildSpec{Stage: "solo", Args: []string{strconv.Itoa(s.from)}, Race: s.race, Timeout: budget})
 				in := makeInput(r, pool, s.from)
 				cr := &caseRun{r: r, pool: pool, in: in}
 				cr.cur.Store("suspect re-run")
+				head := readHeadTail(ex.Output, 3<<20, 1<<20)
+				hangAt := strings.Index(head, "\nC04-HANG why=")
 				switch {
-				case ex.TimedOut:
-					dump := readHeadTail(ex.Output, 3<<20, 1<<20)
+				case ex.TimedOut && hangAt < 0:
+					r.Inconclusive("suspect neither finished nor reached the CPU/idle hang criteria within the child watchdog (machine load)")
+				case hangAt >= 0:
+					dump := head[hangAt:]
 					key, det := hangSig(dump)
 					rp := cr.replay()
+					rp["criterion"] = oneLine(dump[1:], 120)
 					rp["budget_s"] = budget.Seconds()
 					rp["goroutine_dump_case"] = det
 					rp["race_build"] = s.race
 					r.Distinct("crash_signatures", key)
-					r.Violate(key, fmt.Sprintf("input %d did not finish within %.0f s when run alone (normal cost: milliseconds): %s", s.from, budget.Seconds(), oneLine(in.Desc, 200)), rp)
+					r.Violate(key, fmt.Sprintf("input %d does not finish when run alone (%s; normal cost: milliseconds): %s", s.from, oneLine(dump[1:], 80), oneLine(in.Desc, 200)), rp)
 				case ex.Partial:
 					r.Count("suspects_finished_alone", 1)
 				default:
@@ -240,7 +241,7 @@ func top(r *vf.Run) {
 	r.Set("cases_planned", n-from0)
 	r.Set("parallel_children", par)
 	r.Assume("the Go runtime reports every fatal condition of a child on its stderr (panic / fatal error / signal) before the process ends; a death without such a report is counted inconclusive")
-	r.Assume("a case that finishes within the soft timer (12 s plain, 60 s race) or within 120 s alone is not a hang; 'blocks forever' is decided as 'does not finish in 4-5 orders of magnitude above the normal cost'")
+	r.Assume("hang = the case, run alone, burns 60 s of CPU time (240 s in the race build) without finishing, or is parked for >=120 s with no CPU use in the last 30 s: 4-5 orders of magnitude above the normal cost (milliseconds); decided on CPU time and idleness, not on wall-clock, because the machine is shared")
 	r.Assume("debug.SetMaxStack(16 MiB) in the children: unbounded recursion is reported as 'stack overflow' earlier than with the 1 GiB default; generated inputs nest at most ~3000 levels, far below either limit")
 	r.Assume("klauspost/compress, encoding/json, archive/tar, go-fuse, bbolt are part of the trusted base only in so far as a crash inside them with a /repo frame below is attributed to that /repo frame")
 }
@@ -423,9 +424,9 @@ func batch(r *vf.Run) {
 	jw("START %d %d\n", from, to)
 	pool := newPool(r)
 	sh := &shared{dir: filepath.Join(r.Scratch, "shared")}
-	soft := time.Duration(envInt("C04_SOFT_S", 12)) * time.Second
+	softCPU := time.Duration(envInt("C04_SOFT_CPU_S", 8)) * time.Second
 	if r.RaceBuild {
-		soft = time.Duration(envInt("C04_SOFT_RACE_S", 60)) * time.Second
+		softCPU = time.Duration(envInt("C04_SOFT_CPU_RACE_S", 40)) * time.Second
 	}
 	var curIdx = -1
 	if r.RaceBuild {
@@ -453,20 +454,18 @@ func batch(r *vf.Run) {
 		c.dir = filepath.Join(r.Scratch, fmt.Sprintf("case-%d", i))
 		_ = os.MkdirAll(c.dir, 0o755)
 		done := make(chan struct{})
-		t0 := time.Now()
+		t0, c0 := time.Now(), cpuNow()
 		go func() {
 			defer close(done)
 			runCase(c)
 		}()
-		select {
-		case <-done:
-		case <-time.After(soft):
-			jw("SUSPECT %d stage=%v\n", i, c.cur.Load())
-			r.Count("soft_timer_fired", 1)
+		if why := awaitCase(done, softCPU, 25*time.Second, 10*time.Second); why != "" {
+			jw("SUSPECT %d why=%s stage=%v\n", i, why, c.cur.Load())
+			r.Count("soft_limit_fired/"+why, 1)
 			r.FlushPartial()
 			os.Exit(7)
 		}
-		account(r, c, time.Since(t0))
+		account(r, c, time.Since(t0), cpuNow()-c0)
 		_ = os.RemoveAll(c.dir)
 		jw("END %d\n", i)
 		ran++
@@ -475,6 +474,47 @@ func batch(r *vf.Run) {
 		}
 	}
 	jw("DONE\n")
+}
+
+func cpuNow() time.Duration {
+	var ru syscall.Rusage
+	if syscall.Getrusage(syscall.RUSAGE_SELF, &ru) != nil {
+		return 0
+	}
+	return time.Duration(ru.Utime.Nano() + ru.Stime.Nano())
+}
+
+// awaitCase waits for the case and decides on *state*, not on wall-clock alone (the box is
+// shared and heavily loaded): "cpu" = the process burnt cpuLimit of CPU time inside this case
+// (a spinning loop, whatever the load), "blocked" = at least idleWall elapsed and the process
+// consumed (almost) no CPU during the last idleWindow (everything is parked). "" = finished.
+func awaitCase(done <-chan struct{}, cpuLimit, idleWall, idleWindow time.Duration) string {
+	t0, c0 := time.Now(), cpuNow()
+	type smp struct {
+		t time.Time
+		c time.Duration
+	}
+	win := []smp{{t0, c0}}
+	tick := time.NewTicker(250 * time.Millisecond)
+	defer tick.Stop()
+	for {
+		select {
+		case <-done:
+			return ""
+		case now := <-tick.C:
+			c := cpuNow()
+			if c-c0 >= cpuLimit {
+				return "cpu"
+			}
+			win = append(win, smp{now, c})
+			for len(win) > 1 && now.Sub(win[1].t) >= idleWindow {
+				win = win[1:]
+			}
+			if now.Sub(t0) >= idleWall && now.Sub(win[0].t) >= idleWindow && c-win[0].c < idleWindow/50 {
+				return "blocked"
+			}
+		}
+	}
 }
 
 func runCase(c *caseRun) {
@@ -490,7 +530,7 @@ func runCase(c *caseRun) {
 	})
 }
 
-func account(r *vf.Run, c *caseRun, d time.Duration) {
+func account(r *vf.Run, c *caseRun, d, cpu time.Duration) {
 	r.Eval(1)
 	g := c.in.Gen
 	r.Count("inputs/"+g, 1)
@@ -510,8 +550,10 @@ func account(r *vf.Run, c *caseRun, d time.Duration) {
 	if c.in.Idx%977 == 3 || c.in.Idx < 3 {
 		r.Sample(map[string]any{"index": c.in.Idx, "gen": g, "desc": oneLine(c.in.Desc, 300), "past": stagesOf(m), "ms": d.Milliseconds()})
 	}
-	if d > 5*time.Second {
-		r.Count("slow_cases_over_5s", 1)
+	r.Count("cpu_ms/"+g, int(cpu.Milliseconds()))
+	if cpu > 2*time.Second {
+		r.Count("cases_over_2s_cpu", 1)
+		r.Distinct("costly_cases", fmt.Sprintf("%d cpu=%dms wall=%dms %s", c.in.Idx, cpu.Milliseconds(), d.Milliseconds(), oneLine(c.in.Desc, 160)))
 	}
 	if c.race {
 		r.Count("cases_in_race_build", 1)
@@ -558,9 +600,23 @@ func solo(r *vf.Run) {
 		fmt.Printf("\nSIGQUIT: goroutine dump of the suspect run (stage=%v)\n\n%s\n", c.cur.Load(), buf[:n])
 		os.Exit(3)
 	}()
-	t0 := time.Now()
-	runCase(c)
-	account(r, c, time.Since(t0))
+	t0, c0 := time.Now(), cpuNow()
+	done := make(chan struct{})
+	go func() {
+		defer close(done)
+		runCase(c)
+	}()
+	hangCPU := time.Duration(envInt("C04_HANG_CPU_S", 60)) * time.Second
+	if r.RaceBuild {
+		hangCPU *= 4
+	}
+	if why := awaitCase(done, hangCPU, time.Duration(envInt("C04_HANG_S", 120))*time.Second, 30*time.Second); why != "" {
+		buf := make([]byte, 32<<20)
+		n := runtime.Stack(buf, true)
+		fmt.Printf("\nC04-HANG why=%s cpu=%v wall=%v stage=%v\n\n%s\n", why, cpuNow()-c0, time.Since(t0), c.cur.Load(), buf[:n])
+		os.Exit(4)
+	}
+	account(r, c, time.Since(t0), cpuNow()-c0)
 	r.Count("solo_runs", 1)
 	if stageTiming != nil {
 		var ks []string
